@@ -1,5 +1,6 @@
 """Fact base loader: wraps one JSON fact file written by the rsav-extract driver."""
 import json
+import os
 
 
 class Ty:
@@ -133,7 +134,7 @@ class Body:
 
 
 class Facts:
-    def __init__(self, path):
+    def __init__(self, path, inline=None):
         with open(path) as fh:
             self.d = json.load(fh)
         self.path = path
@@ -141,6 +142,23 @@ class Facts:
         self.features = sorted(x for x in self.d["features"] if x != "default")
         self._types = {}
         self._spans = {}
+        self.inline_log = []
+        self._build()
+        if inline is None:
+            inline = os.environ.get("RSAV_NO_INLINE") != "1"
+        if inline and self.crate == "rsactor":
+            # canonical form: crate-private helpers without a role are inlined into their callers (see inline.py)
+            import anchors
+            import inline as inl
+            self.path = path + "#raw"          # analyses used to find the roles cache under this key, not under the final one
+            keep = anchors.keep_defs(self)
+            il = inl.Inliner(self.d, keep)
+            self.inline_log = il.run()
+            self.inlined_helpers = sorted(il.removed)
+            self.path = path
+            self._build()
+
+    def _build(self):
         self.bodies = {}
         self.by_def = {}
         counts = {}
